@@ -130,4 +130,42 @@ theorem callOps_plain (tbl : List ProbeRun) (htbl : ∀ r ∈ tbl, r.ok = true) 
       exact clientOps_plain id c (probeRun_ok_plain r (htbl r (List.mem_of_getElem? hr)) c hc) op hop
     · simp at hop
 
+/-! ### the same for any interleaving of atomic actions (any number of threads) -/
+
+theorem act_noTz (cfg : Cfg) (hre : cfg.reent = true) (s : State) (a : Act) (hd : s.dead = false)
+    (hp : ∀ o, a = .op o → o.plain = true) (hz : NoTz s) :
+    NoTz (act cfg s a) ∧ (act cfg s a).dead = false := by
+  cases a with
+  | op o =>
+    exact ⟨(step_normal cfg hre s o hd (hp o rfl) hz).2, (step_returns cfg hre s o hd).2⟩
+  | pop tid k =>
+    refine ⟨?_, hd⟩
+    intro it h
+    simp only [act] at h
+    exact hz it (List.mem_of_mem_drop h)
+  | iter tid =>
+    simp only [act]
+    split
+    · exact ⟨hz, hd⟩
+    · rename_i it rest _
+      unfold iterItem
+      split <;> exact ⟨hz, hd⟩
+
+theorem runActs_noTz (cfg : Cfg) (hre : cfg.reent = true) : ∀ (as : List Act) (s : State), s.dead = false → NoTz s →
+    (∀ o, Act.op o ∈ as → o.plain = true) → NoTz (runActs cfg s as) ∧ (runActs cfg s as).dead = false := by
+  intro as
+  induction as with
+  | nil => intro s hd hz _; exact ⟨hz, hd⟩
+  | cons a as ih =>
+    intro s hd hz hp
+    obtain ⟨h1, h2⟩ := act_noTz cfg hre s a hd (fun o ho => hp o (by simp [ho])) hz
+    exact ih _ h2 h1 (fun o ho => hp o (by simp [ho]))
+
+theorem autophagy_normal_of_noTz (cfg : Cfg) (s : State) (hz : NoTz s) : (autophagy cfg s).2.normal = true := by
+  have hno : s.queue.any (·.tz) = false := by
+    rw [List.any_eq_false]
+    intro it hit
+    simp [hz it hit]
+  simp [autophagy, hno, Obs.normal]
+
 end Operon.Lysosome
